@@ -17,9 +17,9 @@ typedef void (*_dispatch_verif_atomic_cb_t)(const volatile void *addr, unsigned 
 		int op, uint64_t oldv, uint64_t newv, const char *func, int line);
 extern _dispatch_verif_atomic_cb_t _dispatch_verif_atomic_cb;
 extern void (*_dispatch_verif_yield_cb)(const volatile void *addr, const char *func, int line);
-struct _dispatch_verif_site_s { const char *file; int line; int op; const char *order; const char *expr; };
+struct _dispatch_verif_site_s { const char *file; int line; int op; const char *order; const char *expr; const char *func; };
 #define _DVA_SITE(opk, m, p) do { static const struct _dispatch_verif_site_s \
-		__attribute__((section("dva_sites"), used)) _dva_s = { __FILE__, __LINE__, (opk), #m, #p }; (void)_dva_s; } while (0)
+		__attribute__((section("dva_sites"), used)) _dva_s = { __FILE__, __LINE__, (opk), #m, #p, __func__ }; (void)_dva_s; } while (0)
 #define _DVA_U64(x) ((uint64_t)(uintptr_t)(x))
 #define _DVA_PRE(p) do { if (__builtin_expect(_dispatch_verif_yield_cb != 0, 0)) \
 		_dispatch_verif_yield_cb((p), __func__, __LINE__); } while (0)
